@@ -458,7 +458,14 @@ def BInst.wfShared (I : BInst) : Bool :=
     a == b || !((I.members a).any (fun m => (I.members b).contains m)) ||
     ((I.batch a).fresh && (I.batch b).fresh)))
 
+/-- Unique names of the member tasks are pairwise distinct (the graph relations are read through
+them) and every member of a BatchTask is a task of the call. -/
+def BInst.wfUniq (I : BInst) : Bool :=
+  (List.range I.nT).all (fun i => (List.range I.nT).all (fun j =>
+    i == j || !((I.task i).uniq == (I.task j).uniq))) &&
+  (List.range I.nB).all (fun b => (I.members b).all (fun m => decide (m < I.nT)))
+
 def BInst.wf (I : BInst) : Bool :=
-  I.wfSizes && I.wfNames && I.wfOrder && I.wfRunning && I.wfShared && decide (I.nOffered ≤ I.nT)
+  I.wfSizes && I.wfNames && I.wfOrder && I.wfRunning && I.wfShared && I.wfUniq && decide (I.nOffered ≤ I.nT)
 
 end ErdosVerif.IlpBatch
